@@ -52,7 +52,7 @@ var focuses = []focus{
 	{"", ExitMWErr},
 	{"", ExitHErr},
 	{RouteCtrl, ExitHPanic}, {RoutePlain, ExitHPanic},
-	{"", ExitCreateFail}, {"", ExitClosed},
+	{"", ExitCreateFail}, {"", ExitInitFail}, {"", ExitClosed},
 	{RouteNoScope, ExitOK}, {RouteUnreg, ExitOK}, {RouteFailCtor, ExitOK},
 }
 
@@ -109,6 +109,9 @@ func randPlan(r *rand.Rand, fw string, o Opts, transport string) Plan {
 		p.Exit = ExitHPanic
 	case n < 10:
 		p.Exit = ExitCreateFail
+		if r.Intn(2) == 0 {
+			p.Exit = ExitInitFail
+		}
 	default:
 		if transport == TrServer && (p.Route == RouteCtrl || p.Route == RoutePlain) {
 			p.Exit = ExitAbort
